@@ -17,8 +17,9 @@ Targets (arguments in the JSON encoding of `PyRt/Wire.lean`):
 * `wsgi.application`  `[template|null, params, ajax, modules, descrs]` → whole response, see `respJson`
 
 An *outcome* is `{"raise": "ClassName"}`, `{"date": {"s": …}}` (already `strftime`ed) or a value.
-Values: `{"s": …}` → `str`, number → `int`, `null` → `None`, `{"dec": …}` → not JSON-serialisable,
-anything else → `other`.
+Values: `{"s": …}` → `str`, number → `int`, `null` → `None`, `true`/`false` → `bool`,
+`{"dec": {"s": text}}` → not JSON-serialisable object with `str()` text (Decimal, …),
+`{"o": {"s": text}}` → any other object (dict, list, tuple, float) with its `str()` text.
 Used only by the executable driver; nothing here is used in theorems.
 -/
 open Lean (Json)
@@ -43,21 +44,31 @@ def nameOfExc : Exc → String
   | .overflow => "OverflowError" | .unicodeError => "UnicodeError"
   | .stopIteration => "StopIteration" | .other => "Exception"
 
+def textField (j : Json) (k : String) : Option Str :=
+  match j.getObjVal? k with
+  | .ok v => strOfJson v
+  | .error _ => none
+
 def convOfJson (j : Json) : Conv :=
   match strOfJson j with
   | some s => .str s
   | none =>
     match j with
     | .null => .none
-    | .num _ => (match intOfJson j with | some n => .int n | none => .other)
-    | _ => (match j.getObjVal? "dec" with | .ok _ => .nojson | .error _ => .other)
+    | .bool b => .bool b
+    | .num _ => (match intOfJson j with | some n => .int n | none => .other [])
+    | _ =>
+      match textField j "dec" with
+      | some t => .nojson t
+      | none => .other ((textField j "o").getD [])
 
 def convToJson : Conv → Json
   | .str s => strToWire s
   | .int n => toWire n
   | .none => Json.null
-  | .other => Json.mkObj [("other", Json.bool true)]
-  | .nojson => Json.mkObj [("nojson", Json.bool true)]
+  | .bool b => Json.bool b
+  | .other _ => Json.mkObj [("other", Json.bool true)]
+  | .nojson _ => Json.mkObj [("nojson", Json.bool true)]
 
 /-- outcome of a call: exception, date or value -/
 def outcomeOfJson (j : Json) : R GetVal :=
@@ -65,14 +76,14 @@ def outcomeOfJson (j : Json) : R GetVal :=
   | .ok (.str cls) => .error (excOfName cls)
   | _ =>
     match j.getObjVal? "date" with
-    | .ok d => (match strOfJson d with | some s => .ok (.date s) | none => .ok (.conv .other))
+    | .ok d => (match strOfJson d with | some s => .ok (.date s) | none => .ok (.conv (.other [])))
     | .error _ => .ok (.conv (convOfJson j))
 
 def convOutcome (j : Json) : R Conv :=
   match outcomeOfJson j with
   | .error e => .error e
   | .ok (.conv c) => .ok c
-  | .ok (.date _) => .ok .other
+  | .ok (.date iso) => .ok (.other iso)
 
 def boolOutcome (j : Json) : R Bool :=
   match j.getObjVal? "raise" with
